@@ -712,6 +712,7 @@ def replace(eq: str, term: str, replacement: str, rhs_only: tp.Optional[bool] = 
 
     eq_new = ""
     idx = eq.find(term)
+    prev = ""  # character that precedes the not yet processed remainder of eq (empty at the start of the equation)
 
     # go through all appearances of term in eq
     while idx != -1:
@@ -719,11 +720,11 @@ def replace(eq: str, term: str, replacement: str, rhs_only: tp.Optional[bool] = 
         # get idx of sign that follows after term
         idx_follow_op = idx+len(term)
 
-        # if it is an allowed sign, replace term, else not
+        # if term is delimited by allowed signs (or the equation boundaries) on both sides, replace it, else not
         replaced = False
-        if ((idx_follow_op < len(eq) and eq[idx_follow_op] in allowed_follow_ops) and
-           (idx == 0 or eq[idx-1] in allowed_follow_ops)) or \
-                (idx_follow_op == len(eq) and eq[idx-1] in allowed_follow_ops):
+        lead = eq[idx-1] if idx > 0 else prev
+        if (idx_follow_op == len(eq) or eq[idx_follow_op] in allowed_follow_ops) and \
+                (lead == "" or lead in allowed_follow_ops):
             eq_part = eq[:idx]
             if (rhs_only and "=" in eq_part) or (lhs_only and "=" not in eq_part) or (not rhs_only and not lhs_only):
                 eq_new += f"{eq_part}{replacement}"
@@ -732,6 +733,7 @@ def replace(eq: str, term: str, replacement: str, rhs_only: tp.Optional[bool] = 
             eq_new += f"{eq[:idx_follow_op]}"
 
         # jump to next appearance of term in eq
+        prev = eq[idx_follow_op-1]
         eq = eq[idx_follow_op:]
         idx = eq.find(term)
 
